@@ -141,12 +141,14 @@ class Session:
                     f"C12/not-repeatable:{kind}",
                     f"{where}: compiles here but a fresh twin raised {type(f2_err).__name__}: {str(f2_err)[:200]}",
                 )
+            k1, k2 = dyn.symbol_keys(self.U, self.net), dyn.symbol_keys(U2, net2)
             for j in range(2):
-                r1 = dyn.eval_function(F1, core.H(op["vals"], j))
-                r2 = dyn.eval_function(F2, core.H(op["vals"], j))
+                # evaluated per variable, compared as multisets of outputs: the argument / result
+                # layout of the compiled function is not C12's subject
+                r1 = dyn.eval_function_keyed(F1, k1, core.H(op["vals"], j))
+                r2 = dyn.eval_function_keyed(F2, k2, core.H(op["vals"], j))
                 if r1 != r2:
-                    what = "layout" if r1[0] != r2[0] else "values"
-                    raise Violation(f"C12/not-repeatable:{kind}", f"{where}: compiled function differs from a fresh twin's ({what})")
+                    raise Violation(f"C12/not-repeatable:{kind}", f"{where}: compiled function differs from a fresh twin's (values)")
         self.res.probes[f"twin_compared:{kind}"] += 1
         self.res.nontrivial = True
 
